@@ -155,6 +155,9 @@ func C15(c *fw.Ctx) {
 				add(p.Name, p.RootContent())
 			}
 		}
+		for name, content := range ruleRejectedDocs() {
+			add(name, content)
+		}
 		r := gen.Rng(c.Seed, c.ID, "models")
 		for i := 0; i < c.Pick(300, 6000); i++ {
 			m := model.Generate(r, model.FullSize)
